@@ -49,7 +49,9 @@ def hCtxStatic : Handler
     let marks := ls.map (fun l => match l with
       | op :: args => if needsGen op args then "i" else "s"
       | [] => "s")
-    some (join (marks ++ ["1"]))
+    -- `secp256k1_context_randomize` on the static context: one illegal callback; `secp256k1_context_clone` of it (twice): one
+    -- callback, NULL, no allocation
+    some (join (marks ++ ["1", "c1n", "a0", "c1n", "a0"]))
   | _ => none
 
 def hCtxThreads : Handler
